@@ -21,9 +21,9 @@ func propC05() *Property {
 			"singleflight.Group.Do returns the closure's value; lru.New fails only for size <= 0 (C19.R3)",
 		},
 		Rules: []Rule{
-			{ID: "C05.R1", Title: "a deadline from the configured timeout precedes all connection I/O", Floor: 2, Run: c05R1},
-			{ID: "C05.R2", Title: "no error dropped on the fetch path; values used only under err == nil", Floor: 90, Run: c05R2},
-			{ID: "C05.R4", Title: "NewFailure never receives a possibly-nil error", Floor: 20, Run: c05R4},
+			{ID: "C05.R1", Title: "a deadline from the configured timeout precedes all connection I/O", Floor: 1, Run: c05R1},
+			{ID: "C05.R2", Title: "no error dropped on the fetch path; values used only under err == nil", Floor: 129, Run: c05R2},
+			{ID: "C05.R4", Title: "NewFailure never receives a possibly-nil error", Floor: 18, Run: c05R4},
 		},
 	}
 }
@@ -140,6 +140,55 @@ func c05R1(c *Ctx) {
 			if nIO == 0 {
 				c.note(FuncName(fn)+"/conn", P.InstrPos(in), FuncName(fn), "connection with no I/O uses")
 			}
+		})
+	}
+	// a deadline (re)armed anywhere else — typically inside a Read/Write wrapper
+	// that runs once per I/O operation — turns the bound on the whole exchange
+	// into a per-operation timeout that a trickling peer never hits
+	dialFuncs := map[*ssa.Function]bool{}
+	for _, fn := range P.Funcs {
+		eachInstr(fn, func(_ *ssa.BasicBlock, _ int, in ssa.Instruction) {
+			if call, ok := in.(*ssa.Call); ok {
+				if f := calleeObj(&call.Call); f != nil && f.Pkg() != nil && (f.Pkg().Path() == "net" || f.Pkg().Path() == "crypto/tls") && strings.HasPrefix(f.Name(), "Dial") {
+					dialFuncs[fn] = true
+				}
+			}
+		})
+	}
+	for _, fn := range P.Funcs {
+		eachInstr(fn, func(_ *ssa.BasicBlock, _ int, in ssa.Instruction) {
+			cc := callOf(in)
+			if cc == nil {
+				return
+			}
+			f := calleeObj(cc)
+			if f == nil || !(f.Name() == "SetDeadline" || f.Name() == "SetReadDeadline" || f.Name() == "SetWriteDeadline") {
+				return
+			}
+			var recv ssa.Value
+			if cc.IsInvoke() {
+				recv = cc.Value
+			} else if len(cc.Args) > 0 {
+				recv = cc.Args[0]
+			}
+			if recv == nil || !implementsNetConn(P, recv.Type()) {
+				return
+			}
+			okSite := dialFuncs[fn] && !inCycle(in.Block())
+			if okSite {
+				// the receiver must be the dial result of this very function
+				okSite = false
+				if ex, ok := recv.(*ssa.Extract); ok {
+					if dc, ok := ex.Tuple.(*ssa.Call); ok {
+						if df := calleeObj(&dc.Call); df != nil && strings.HasPrefix(df.Name(), "Dial") {
+							okSite = true
+						}
+					}
+				}
+			}
+			c.check(okSite, FuncName(fn)+"/deadline-site", P.InstrPos(in), FuncName(fn),
+				"the deadline is set once, on the connection this function has just opened",
+				f.Name()+" is called on a connection outside the function that opened it (or in a loop): a deadline renewed per read or write bounds each operation, not the exchange — a peer that trickles bytes is never timed out")
 		})
 	}
 	c.info("connections", nConns)
@@ -367,7 +416,7 @@ func errExempt(fn *ssa.Function, call *ssa.Call) string {
 	switch {
 	case isLibCall(cc, "golang.org/x/sync/singleflight", "Group", "Do"):
 		return "singleflight.Group.Do: the closure passed in client.FetchURL always returns a nil error (the fetch error travels inside the bundle)"
-	case strings.HasPrefix(objFullName(calleeObj(cc)), "github.com/hashicorp/golang-lru/v2.New"):
+	case objFullName(calleeObj(cc)) == "github.com/hashicorp/golang-lru/v2.New":
 		return "lru.New fails only for a non-positive size, which C19.R3 requires the configuration to reject"
 	}
 	return ""
